@@ -19,8 +19,8 @@ RULE = (
     "candidate plates"
 )
 ASSUMPTIONS = ["batches are subsets of the unobserved plates of the screen", "scores are finite or -inf (no NaN)"]
-REQUIRED = {"coverage_checks": {"quick": 300, "thorough": 6000}, "conditioning_checks": {"quick": 300, "thorough": 6000}, "selections_checked": {"quick": 1000, "thorough": 20000}, "cli_runs": {"quick": 30, "thorough": 500}, "selections_none": {"quick": 20, "thorough": 400}}
-N_SCREENS = {"quick": 480, "thorough": 9600}
+REQUIRED = {"coverage_checks": {"quick": 800, "thorough": 10000}, "conditioning_checks": {"quick": 1500, "thorough": 20000}, "selections_checked": {"quick": 1800, "thorough": 25000}, "cli_runs": {"quick": 30, "thorough": 500}, "selections_none": {"quick": 20, "thorough": 400}}
+N_SCREENS = {"quick": 960, "thorough": 12800}
 
 
 def cond_key(screen, r):
